@@ -84,12 +84,44 @@ def body(cfg, ctx, sources=False):
     if J.kw_only(cfg):
         ctx.event('accepted-with-kwonly')
     obs = J.serve(ctx, cfg, built, plan, rc, sources=sources, n_requests=2 if sources else 1)
+    rebind_elsewhere(ctx, cfg, built, rc)
     consumed = any(plan.route.source(fid, n)[0] == 'provided'
                    for fid in plan.route.av for n in _names(plan.route, fid))
     if consumed:
         ctx.event('provided-consumed')
         ctx.nt(cfg, sample=len(ctx.samples) < 4)
     return obs
+
+
+def rebind_elsewhere(ctx, cfg, built, rc):
+    """the very same Route object, now bound into a second, bare application (no resources, no middlewares): the
+    accept/reject decision must be taken afresh for that context, whatever was decided for the first one"""
+    from clastic import Application
+    from clastic.errors import ErrorHandler
+    if cfg.get('siblings') or I.has_posonly(cfg):
+        return
+    cfg2 = {'levels': [{'res': [], 'mws': [], 'prefix': '/s'}], 'route': cfg['route'], 'build': 'list'}
+    try:
+        plan2, rej2 = I.predict(cfg2), None
+    except I.Reject as r:
+        plan2, rej2 = None, r
+    try:
+        app2, exc2 = Application([built.route], error_handler=ErrorHandler(reraise_uncaught=True)), None
+    except Exception as e:
+        app2, exc2 = None, e
+    if rej2 is not None:
+        ctx.event('second-binding-rejected')
+        if exc2 is None:
+            ctx.mismatch('second-binding-accepted-' + rej2.kind, 'the same Route bound into a bare second application: model rejects (%s) but it was constructed' % rej2, rc)
+        return
+    if exc2 is not None:
+        if not plan2.cyclic:
+            ctx.mismatch('second-binding-spurious-reject', 'the same Route bound into a bare second application raised %r' % exc2, rc)
+        return
+    ctx.event('second-binding-accepted')
+    b2 = I.Built()
+    b2.app, b2.world, b2.prefix, b2.pattern, b2.route = app2, built.world, '', '/r' + ''.join('/<%s>' % u for u in cfg['route'].get('url') or []), built.route
+    J.serve(ctx, cfg2, b2, plan2, rc, with_null=False)
 
 
 def _names(view, fid):
